@@ -2,6 +2,9 @@ package checks
 
 import (
 	"path/filepath"
+
+	"github.com/ddddddO/gtree"
+
 	"runtime"
 	"strconv"
 	"strings"
@@ -177,6 +180,14 @@ func c07One(c *Ctx, cs *Case, f model.Forest, doc, fkey string, rt fsRoute, dry,
 		captureColorOutput(func() {
 			if rt.FromRoot {
 				for i, root := range f {
+					if (cs.Idx+i)%2 == 1 {
+						// a tree that has been used before: Output and Walk first, then Mkdir on the SAME tree
+						g := BuildRoot(root)
+						_ = Guard(func() error { return gtree.OutputFromRoot(mon.NewRecWriter(), g) })
+						_ = Guard(func() error { return gtree.WalkFromRoot(g, func(*gtree.WalkerNode) error { return nil }) })
+						results = append(results, res{Guard(func() error { return gtree.MkdirFromRoot(g, opts...) }), invalidRoot[i]})
+						continue
+					}
 					results = append(results, res{mkdirCall(rt, "", root, opts), invalidRoot[i]})
 				}
 			} else {
